@@ -32,3 +32,59 @@ package main
 //@     invariant forall j int :: 0 <= j && j < len(b64Name) ==> spec.B64URL(b64Name[j])
 //@     invariant !spec.IsDigit(b64Name[0])
 //@ end
+
+//@ func splitFlagsFromArgs
+//@   property C20
+//@   spec goflags.smt2
+//@   fact @table-booleanFlags: forall s string :: booleanFlags[s] == spec.GoBool(s)
+//@   assigns nothing
+//@   ensures @split-point: len(flags) == spec.GoSplit(all, 0)
+//@   ensures @flags-view: len(flags) > 0 ==> ref(flags) == ref(all) && off(flags) == off(all)
+//@   ensures @flags-cap: len(flags) < len(all) ==> cap(flags) == len(flags)
+//@   ensures @args-view: len(args) == len(all) - len(flags) && (len(args) > 0 ==> ref(args) == ref(all) && off(args) == off(all) + len(flags))
+//@   loop 0
+//@     invariant 0 <= i && i <= len(all) + 1
+//@     invariant spec.GoSplit(all, 0) == spec.GoSplit(all, i)
+//@ end
+
+//@ func hasHelpFlag
+//@   property C20
+//@   assigns nothing
+//@   ensures @iff: r0 <==> (exists k int :: 0 <= k && k < len(flags) && (flags[k] == "-h" || flags[k] == "-help" || flags[k] == "--help"))
+//@   loop 0
+//@     invariant forall j int :: 0 <= j && j < _i ==> !(flags[j] == "-h" || flags[j] == "-help" || flags[j] == "--help")
+//@ end
+
+//@ func splitFlagsFromFiles
+//@   property C20
+//@   assigns nothing
+//@   ensures @partition: len(flags) + len(paths) == len(all)
+//@   ensures @paths-are-files: forall k int :: 0 <= k && k < len(paths) ==> !strings.HasPrefix(paths[k], "-") && strings.HasSuffix(paths[k], ext)
+//@   ensures @last-flag: len(flags) > 0 ==> (strings.HasPrefix(flags[len(flags)-1], "-") || !strings.HasSuffix(flags[len(flags)-1], ext))
+//@   ensures @paths-view: len(paths) > 0 ==> ref(paths) == ref(all) && off(paths) == off(all) + len(flags)
+//@   ensures @flags-view: len(flags) > 0 ==> ref(flags) == ref(all) && off(flags) == off(all) && cap(flags) == len(flags)
+//@   loop 0
+//@     invariant -1 <= i && i < len(all)
+//@     invariant forall k int :: i < k && k < len(all) ==> !strings.HasPrefix(all[k], "-") && strings.HasSuffix(all[k], ext)
+//@ end
+
+//@ func filterForwardBuildFlags
+//@   property C20
+//@   spec goflags.smt2
+//@   fact @table-booleanFlags: forall s string :: booleanFlags[s] == spec.GoBool(s)
+//@   loop 0
+//@     invariant 0 <= i && i <= len(flags) + 1
+//@     invariant @parse-sync: i <= len(flags) ==> spec.IsNamePos(flags, i)
+//@ end
+
+//@ func flagSetValue
+//@   property C20 C02
+//@   ensures @len: len(r0) == len(flags) || len(r0) == len(flags) + 1
+//@   ensures @append-only-if-absent: len(r0) == len(flags) + 1 ==> r0[len(flags)] == name+"="+value && (forall j int :: 0 <= j && j < len(flags) ==> !strings.HasPrefix(old(flags[j]), name+"=") && old(flags[j]) != name)
+//@   ensures @in-place: len(r0) == len(flags) ==> ref(r0) == ref(flags) && off(r0) == off(flags)
+//@   ensures @eq-form-replaced: forall p int :: 0 <= p && p < len(flags) && strings.HasPrefix(old(flags[p]), name+"=") && (forall j int :: 0 <= j && j < p ==> !strings.HasPrefix(old(flags[j]), name+"=") && old(flags[j]) != name) ==> r0[p] == name+"="+value
+//@   ensures @space-form-replaced: forall p int :: 0 <= p && p+1 < len(flags) && old(flags[p]) == name && !strings.HasPrefix(old(flags[p]), name+"=") && (forall j int :: 0 <= j && j < p ==> !strings.HasPrefix(old(flags[j]), name+"=") && old(flags[j]) != name) ==> r0[p+1] == value
+//@   loop 0
+//@     invariant forall j int :: 0 <= j && j < _i ==> !strings.HasPrefix(flags[j], name+"=") && flags[j] != name
+//@     invariant forall j int :: 0 <= j && j < len(flags) ==> flags[j] == old(flags[j])
+//@ end
